@@ -33,8 +33,8 @@ CLAIMED = {
         note="Trusted: Lean kernel; petgraph DFS/SCC replaced by the proved closure and compared per case; syn extraction + external-crate allow-list. Four escape routes of collect are reproduced and recorded as known findings (additionalProperties $ref, nullable wrapper, single-$ref union, path-item parameters).",
         ref="§6 C07"),
     "C10": dict(
-        text="Lean 4 proofs: box_breaks_cycles (a by-value relation that is a sub-relation of the dependency relation and never targets a node on a dependency cycle has no cycle, for any graph), cyclic_spec/cyclic_total (the executable cycle test equals `lies on a cycle` and always terminates), boxed_refs_acyclic. SchemaRegistry's cyclic set is compared with the model on every graph; the types emitted by the current sources are parsed with syn and their by-value containment graph and Default-construction graph are judged acyclic with the proved cycle test, exhaustively over all 2-schema graphs on the 8 edge kinds (thorough) and sampled 3-6-schema graphs.",
-        note="Trusted: Lean kernel; the reading of emitted field types into value/Option/Box/Vec/map wrapper chains; better_default's expansion rule; rustc E0072 itself is not run in the quick tier; round trips of deep documents are covered by C02's arena, not here. Two Default-recursion classes (union first variant, required-member cycle) are recorded as known findings.",
+        text="Lean 4 proofs: box_breaks_cycles (a by-value relation that is a sub-relation of the dependency relation and never targets a node on a dependency cycle has no cycle, for any graph), cyclic_spec/cyclic_total (the executable cycle test equals `lies on a cycle` and always terminates), boxed_refs_acyclic. SchemaRegistry's cyclic set is compared with the model on every graph; the types emitted by the current sources are parsed with syn and their by-value containment graph and Default-construction graph are judged acyclic with the proved cycle test, exhaustively over all 2-schema graphs on the 8 edge kinds (thorough) and sampled 3-6-schema graphs. Emitted type graph with wrapper chains (EGraph): emittedCycleHasIndirection is a decidable rank certificate, proved sound for finite size (a layout rank exists, no by-value cycle, by-value containment is well-founded) and consistent with the cycle test; the boxing rule (expectBoxedAt) is the per-case model of every by-name reference; unions held by value by recursive structs (inline unions, structural copies of named unions, --no-helpers) and the first-accepting-variant semantics of untagged unions (chooseVariant_first, keysPreserved_of_first; permissive members before / after recursive ones, variant order read from the emitted enum) are generated and judged.",
+        note="Trusted: Lean kernel; the reading of emitted field types into value/Option/Box/Vec/map wrapper chains; better_default's expansion rule; rustc E0072 itself is not run in the quick tier; round trips of deep documents are covered by C02's arena, not here. Two Default-recursion classes (union first variant, required-member cycle) are recorded as known findings, as are F10-3 (generator stack overflow on cycles of inline-union members with helper constructors), F10-4 (by-value cycle through a structural copy named via the schema-identity cache) and F10-5 (permissive union member listed first shadows the specific ones). Untagged decoding is modelled on key sets (members of one union use different member names).",
         ref="§6 C10"),
     "C08": dict(
         text="Lean 4 proofs over a model of OperationRegistry (filter on the base id during ingestion, uniquifying suffixes, common-affix trimming over the filtered set): selection is whole-identifier list membership, --exclude is the complement of --only, and (select_exact) when base ids are pairwise distinct and trimming is the identity on every sub-selection, `list` prints the base ids and --only/--exclude select exactly the listed rows, each once; counter-example theorems exhibit the configurations where today's code breaks the property. Tied to the code by comparing the model with OperationRegistry::with_filters on random operation sets and by running the REAL binary: `list operations`, then `generate --only/--exclude S` for subsets S of the printed ids, mapping emitted methods back to (METHOD, path).",
